@@ -18,7 +18,7 @@ int main(int argc, char** argv)
   bool const all_equal = x.format_pattern == y.format_pattern && x.timestamp_pattern == y.timestamp_pattern && x.timestamp_timezone == y.timestamp_timezone && x.add_metadata_to_multi_line_logs == y.add_metadata_to_multi_line_logs;
   bool const got = (x == y);
   printf("operator== says %d, the four fields are %s\n", (int)got, all_equal ? "all equal" : "not all equal");
-  if (got != all_equal) { printf("REPLAY: VIOLATED two option sets compare equal although a field differs (their loggers would share one formatter), or unequal although none does\n"); return 1; }
+  if (got && !all_equal) { printf("REPLAY: VIOLATED two option sets compare equal although a field differs (their loggers would share one formatter)\n"); return 1; }
   printf("REPLAY: holds\n");
   return 0;
 }
